@@ -87,6 +87,8 @@ namespace Dune{
       \throws InvalidFutureException
      */
     void wait(){
+      if(!_future)
+        DUNE_THROW(InvalidFutureException, "The Future is not valid");
       _future->wait();
     }
 
@@ -95,6 +97,8 @@ namespace Dune{
       \throws InvalidFutureException
      */
     T get() {
+      if(!_future)
+        DUNE_THROW(InvalidFutureException, "The Future is not valid");
       return _future->get();
     }
 
@@ -103,6 +107,8 @@ namespace Dune{
       \throws InvalidFutureException
     */
     bool ready() const {
+      if(!_future)
+        DUNE_THROW(InvalidFutureException, "The Future is not valid");
       return _future->ready();
     }
 
